@@ -943,3 +943,29 @@ fn sched(args: &Args, b: &mut Batcher, rng: &mut SmallRng) {
         }
     }
 }
+
+
+/// Inverse of `raw_case` (replay files).
+pub fn case_from_raw(v: &serde_json::Value) -> Case {
+    let ws = |x: &serde_json::Value| -> Vec<i64> { x.as_array().map(|a| a.iter().filter_map(|y| y.as_i64()).collect()).unwrap_or_default() };
+    let kv = |x: &serde_json::Value| -> (Vec<i64>, Vec<i64>) { (ws(&x[0]), ws(&x[1])) };
+    Case {
+        sols: v["sols"].as_array().unwrap().iter().map(|s| SolD {
+            contract: s["contract"].as_i64().unwrap(),
+            pred: s["pred"].as_u64().unwrap() as usize,
+            predw: s["predw"].as_i64().unwrap(),
+            pdata: s["pdata"].as_array().unwrap().iter().map(ws).collect(),
+            decl: s["decl"].as_array().unwrap().iter().map(kv).collect(),
+        }).collect(),
+        preds: v["preds"].as_array().unwrap().iter().map(|p| PredD {
+            nodes: p["nodes"].as_array().unwrap().iter().map(|n| (n[0].as_u64().unwrap() as u16, n[1].as_u64().unwrap() as usize)).collect(),
+            edges: p["edges"].as_array().unwrap().iter().map(|e| e.as_u64().unwrap() as u16).collect(),
+        }).collect(),
+        progs: v["progs"].as_array().unwrap().iter().map(|p| ProgD {
+            bad: p["bad"].as_array().map(|b| b.iter().map(|x| x.as_u64().unwrap() as u8).collect()),
+            ops: p["ops"].as_array().unwrap().iter().filter_map(ops::op_from_raw).collect(),
+        }).collect(),
+        pre: v["pre"].as_array().unwrap().iter().map(|e| (e[0].as_i64().unwrap(), ws(&e[1]), ws(&e[2]))).collect(),
+        all: v["all"].as_bool().unwrap_or(false),
+    }
+}
